@@ -91,6 +91,20 @@ REMOVE = {
               'os.path.join': lambda E, st, node, args, kws, k: k(st, VObj('Str', join_f(args[0].z, args[1].z)))},
 }
 
+# the one place where the clean-up prunes the walk: only __pycache__ is taken out of `dirs` (every other directory the
+# walk offers -- the walk itself has dropped the ignored ones -- is searched: "it deletes every such orphan")
+PRUNE = {
+    'property': ['C15'],
+    'fragment': {'find': "if '__pycache__' in dirs:", 'count': 1, 'heads': ["if '__pycache__' in dirs:"]},
+    'params': {'dirs': 'List[Str]'},
+    'requires': ["distinct_names(dirs)"],              # a directory listing: no name twice
+    'modifies': ['dirs'],
+    'ensures': [
+        "forall(x, Str, iff(x in dirs, old(x in dirs) and x != '__pycache__'))",
+    ],
+    'raises': {},
+}
+
 TAIL = {
     'property': ['C15', 'C09'],
     'fragment': {'start': 'if options.all:', 'end': 'if options.quiet:'},
@@ -131,12 +145,46 @@ PATHS = {
 }
 
 
+def prune_frame(E):
+    """frame of the pruning (decided on the source): inside remove_stale_bytecode the list `dirs` handed over by the walk is
+    changed by the __pycache__ statement (contract @prune) and by nothing else -- no other statement assigns to it, deletes
+    from it, calls a method on it or passes it on.  With @prune: every directory the walk offers, except __pycache__, is
+    searched."""
+    import ast
+    f, _, src = E.find_def('find.remove_stale_bytecode')
+    allowed = None
+    for n in ast.walk(f):
+        if isinstance(n, ast.If) and ast.unparse(n.test) == "'__pycache__' in dirs" and not n.orelse:
+            allowed = n
+    inside = set(map(id, ast.walk(allowed))) if allowed is not None else set()
+    bad = []
+    for n in ast.walk(f):
+        if id(n) in inside:
+            continue
+        if isinstance(n, ast.Name) and n.id == 'dirs':
+            par = [p for p in ast.walk(f) if any(c is n for c in ast.iter_child_nodes(p))][0]
+            ok = (isinstance(par, ast.Tuple) and isinstance(par.ctx, ast.Store)          # the loop target that binds it
+                  or isinstance(par, ast.Compare) and par.left is not n)                 # `x in dirs`
+            if not ok:
+                bad.append('line %d: %s' % (n.lineno, ast.unparse(par)[:60]))
+    E.syntactic_obligation("remove_stale_bytecode changes the walk's `dirs` only in the __pycache__ statement (nothing else is "
+                           "pruned from the clean-up: every other directory the walk offers is searched)",
+                           allowed is not None and not bad,
+                           detail='; '.join(bad) or ('' if allowed is not None else 'the __pycache__ statement was not found'),
+                           props=('C15',))
+
+
 def register(E):
     E.load_sidecar(os.path.join(HERE, 'common.py'))
     E.records['Options'].update({'keepbytecode': 'bool', 'test_path': 'List[Tuple[Str,Str]]'})
     E.records['OptionsTail'] = {'all': 'bool', 'at_level': 'int', 'unit': 'bool', 'non_unit': 'bool', 'layer': 'Any',
                                 'usecompiled': 'bool', 'keepbytecode': 'bool'}
     E.unpack_sorts['WalkEntry'] = unpack_walk
+    def _distinct_names(eng, st, L):
+        h = st.heap[L.rid]
+        i, j = z3.Int(fresh_name('i')), z3.Int(fresh_name('j'))
+        return VBool(z3.ForAll([i, j], z3.Implies(z3.And(0 <= i, i < j, j < h.n), z3.Select(h.arr, i) != z3.Select(h.arr, j))))
+    E.specfuncs['distinct_names'] = _distinct_names
     E.specfuncs.update({'join': _join, 'endswith': _endswith, 'pyname': _pyname,
                         'maxsize': lambda eng, st: VInt(z3.Int('sys_maxsize'))})
     E.globals['sys.maxsize'] = lambda eng, st: VInt(z3.Int('sys_maxsize'))
@@ -164,6 +212,8 @@ def register(E):
         from contracts.find_c14 import walk_syntactic
         walk_syntactic(E)
     E.add_contract('find.remove_stale_bytecode', REMOVE)
+    E.add_contract('find.remove_stale_bytecode@prune', PRUNE)
+    prune_frame(E)
     E.add_contract('options.get_options', TAIL)
     E.records['OptionsPaths'] = {'path': 'Opt[List[Str]]', 'test_path': 'Opt[List[Str]]'}
     E.add_contract('options.get_options@paths', PATHS)
